@@ -221,6 +221,12 @@ static inline double cxx2c_ring_sini (int x) { return sin ((double) x); }
 static inline double cxx2c_ring_cos (unsigned x) { return cos ((double) x); }
 static inline double cxx2c_ring_sin (unsigned x) { return sin ((double) x); }
 #endif
+/* std::numeric_limits<float> members when an extraction leaves them external (RETYPE units replace this file by cxx2c_rt_ring.h,
+ * where they are arbitrary ring constants; here - native differential run and replay - they are the real values) */
+static inline float cxx2c_limit_float_min (void) { return 1.17549435e-38f; }
+static inline float cxx2c_limit_float_max (void) { return 3.40282347e+38f; }
+static inline float cxx2c_limit_float_lowest (void) { return -3.40282347e+38f; }
+static inline float cxx2c_limit_float_epsilon (void) { return 1.1920929e-07f; }
 /* exact functions: kept concrete in every mode */
 static inline float  cxx2c_fabsf (float x) { return x < 0.0f ? -x : (x == 0.0f ? 0.0f : x); }
 static inline double cxx2c_fabs (double x) { return x < 0.0 ? -x : (x == 0.0 ? 0.0 : x); }
